@@ -87,12 +87,12 @@ func why(w *window, id int64) string {
 
 // fspec describes one injected frame completely (replayable).
 type fspec struct {
-	StepNs int64 `json:"step_ns"` // clock advance before the frame is processed
-	Auth   int   `json:"auth"`    // 0 ok, 1 other key, 2 tampered ciphertext, 3 truncated
-	Sess   int64 `json:"sess"`
-	ID     int64 `json:"id"`
-	Len    int32 `json:"len"`
-	Total  int   `json:"total"` // bytes after the 32-byte header (multiple of 16)
+	StepNs int64  `json:"step_ns"` // clock advance before the frame is processed
+	Auth   int    `json:"auth"`    // 0 ok, 1 other key, 2 tampered ciphertext, 3 truncated
+	Sess   int64  `json:"sess"`
+	ID     int64  `json:"id"`
+	Len    int32  `json:"len"`
+	Total  int    `json:"total"` // bytes after the 32-byte header (multiple of 16)
 	Kind   string `json:"kind"`
 }
 
